@@ -32,7 +32,7 @@ From RV Require Import Base.
 From RV.Model Require Import Utf8 Indexer CodePointSet Insn IR Optimizer Unfold Emit Pike Exec Fold.
 From RV.Spec Require Import IRSem IRShape.
 From RV.Gen Require Import FoldTables.
-From RV.Proofs Require Import IndexerFacts MatchRange AsciiUtf8 Utf8Facts Utf8Valid OptTextUtf8 OptTextAscii OptTextCheck OptDD OptMono OptWalk OptRel OptDecat OptFails OptEmpties OptUnroll OptPromote OptBrackets OptBytes OptTop OptEmit PikeDen PikeCorrect PikeTop.
+From RV.Proofs Require Import NodeInd IndexerFacts MatchRange AsciiUtf8 Utf8Facts Utf8Valid OptTextUtf8 OptTextAscii OptTextCheck OptDD OptMono OptWalk OptRel OptDecat OptFails OptEmpties OptUnroll OptPromote OptBrackets OptBytes OptTop OptEmit PikeDen PikeCorrect PikeTop.
 
 (* the relation is a congruence: the walk lifts a sound rewrite rule to a pass *)
 Theorem c03_walk_lifts_rewrite_rule : forall ix unicode utf16 h (okp : nat -> Prop) (func : bool -> node -> R action),
@@ -131,6 +131,13 @@ Proof.
   intros ix unicode utf16 h okp (_ & Hk1 & _ & Hk4 & _ & Hb1 & _ & _) n Hs.
   exact (al_simple ix unicode utf16 h okp Hk1 Hk4 Hb1 n Hs).
 Qed.
+
+(* ... and with the encoding hypotheses also for \q{...} string sets (each alternative is lowered to pieces that are
+   UTF-8 encodings, ASCII byte sets, small character sets or single non-scalar elements): every node kind the parser
+   produces *)
+Theorem c03_parsed_nodes_stay_well_formed : forall ix unicode utf16 h (okp : nat -> Prop),
+  text_ok ix unicode h okp -> text_enc ix h okp -> forall n, parsed n = true -> al ix unicode utf16 h okp n.
+Proof. exact al_parsed. Qed.
 
 Theorem c03_optimize_sound_utf16_build_simple : forall ix unicode utf16 h (okp : nat -> Prop),
   ix_ok ix -> short h -> text_ok ix unicode h okp ->
@@ -244,6 +251,30 @@ Proof.
            (text_ok_utf8 fold cs Hw unicode) (text_enc_utf8 fold cs Hw unicode) u16 n n' E Hq Hs).
 Qed.
 
+(* the same for every pattern the parser can produce, \q{...} string sets included *)
+Theorem c03_optimize_sound_parsed : forall ix unicode utf16 h (okp : nat -> Prop),
+  ix_ok ix -> short h -> text_ok ix unicode h okp -> text_enc ix h okp ->
+  forall u16 n n', optimize u16 n = Ok n' -> qok n = true -> parsed n = true ->
+  exists K, forall fuel ngroups tries p r, okp p ->
+    ir_search ix unicode utf16 h fuel (ir_top n) ngroups tries p = Some r ->
+    ir_search ix unicode utf16 h (fuel + K) (ir_top n') ngroups tries p = Some r.
+Proof.
+  intros ix unicode utf16 h okp Hi Hsh Ht He u16 n n' E Hq Hs.
+  apply (c03_optimize_sound ix unicode utf16 h okp Hi Hsh Ht He u16 n n' E Hq).
+  apply c03_parsed_nodes_stay_well_formed; assumption.
+Qed.
+Theorem c03_optimize_sound_utf8_text_all_patterns : forall fold unicode utf16 h cs, utf8_chars (length h) h = Some cs -> short h ->
+  forall u16 n n', optimize u16 n = Ok n' -> qok n = true -> parsed n = true ->
+  exists K, forall fuel ngroups tries p r, Utf8Valid.bnd cs p ->
+    ir_search (utf8_indexer fold) unicode utf16 h fuel (ir_top n) ngroups tries p = Some r ->
+    ir_search (utf8_indexer fold) unicode utf16 h (fuel + K) (ir_top n') ngroups tries p = Some r.
+Proof.
+  intros fold unicode utf16 h cs Hch Hsh u16 n n' E Hq Hs.
+  destruct (utf8_chars_ok _ _ _ Hch) as [Hw Hcat]. subst h.
+  exact (c03_optimize_sound_parsed (utf8_indexer fold) unicode utf16 (concat cs) (Utf8Valid.bnd cs) (u8_ix_ok fold) Hsh
+           (text_ok_utf8 fold cs Hw unicode) (text_enc_utf8 fold cs Hw unicode) u16 n n' E Hq Hs).
+Qed.
+
 (* Non-vacuity of the last theorem: "éa€" splits into three well-formed characters; 0, 2, 3 and 6 are its boundaries *)
 Example c03_utf8_example :
   utf8_chars 6 [195; 169; 97; 226; 130; 172] = Some [[195; 169]; [97]; [226; 130; 172]] /\
@@ -259,12 +290,12 @@ Qed.
 
 (* the program emitted for the optimized node and the program emitted for the original node give the PikeVM the same
    answer: the leftmost-first match of the IR semantics of the original pattern (well-formed UTF-8 text, a start at a
-   character boundary, a pattern without \q{...} string sets; top_shape, ir_wf and qok are evaluated by the
+   character boundary, any pattern the parser produces; top_shape, ir_wf and qok are evaluated by the
    driver on every IR; short h: the text is shorter than usize::MAX, so that no loop counter reaches the value that stands for "unbounded") *)
 Theorem c03_pikevm_same_answer_after_optimize :
   forall fold h cs utf16 unicode ml n n' body body' prog names prog' names',
   utf8_chars (length h) h = Some cs -> short h ->
-  optimize utf16 n = Ok n' -> qok n = true -> simple n = true ->
+  optimize utf16 n = Ok n' -> qok n = true -> parsed n = true ->
   top_shape n body -> top_shape n' body' ->
   emit utf16 unicode ml n = Ok (prog, names) -> emit utf16 unicode ml n' = Ok (prog', names') ->
   ir_wf (NCat body) = true -> ir_wf (NCat body') = true ->
@@ -278,7 +309,7 @@ Proof.
   destruct (optimize_invariants utf16 n n' Eo Hq) as [Hq' Hng].
   assert (Hg : p_groups prog' = p_groups prog).
   { rewrite (emit_program_groups utf16 unicode ml n prog names Hq Ee), (emit_program_groups utf16 unicode ml n' prog' names' Hq' Ee'). exact Hng. }
-  destruct (c03_optimize_sound_utf8_text fold unicode utf16 h cs Hch Hsh utf16 n n' Eo Hq Hs) as [K HK].
+  destruct (c03_optimize_sound_utf8_text_all_patterns fold unicode utf16 h cs Hch Hsh utf16 n n' Eo Hq Hs) as [K HK].
   intros fuel tries p r Hp Es.
   rewrite <- (top_shape_ir_top n body Ht) in Es.
   pose proof (HK fuel (p_groups prog) tries p r Hp Es) as Es'.
